@@ -89,6 +89,25 @@ Theorem C10_transform_SIR_histories_legal :
   good_histb [stS; stI; stR] [(stS, stI); (stI, stR)] tmin h = true.
 Proof. exact sir_history_good. Qed.
 
+(* _transform_to_node_history_ (SIS): the history of node u is [sis_hist] of its own
+   infection and recovery time lists; it is a legal SIS history when these alternate
+   from tmin on (i1 <= r1 <= i2 <= ..., at most the last recovery missing: [alternating]) *)
+Theorem C10_transform_SIS_spec :
+  forall tmin inf rec u, NoDup (map fst inf) ->
+  assoc (transform_SIS tmin inf rec) u =
+  match assoc inf u with
+  | Some (t :: its) => Some (sis_hist tmin (t :: its) (rts_of rec u) [(tmin, stS)])
+  | _ => None
+  end.
+Proof. exact transform_SIS_spec. Qed.
+
+Theorem C10_transform_SIS_histories_legal :
+  forall tmin inf rec u h, NoDup (map fst inf) ->
+  (forall its, assoc inf u = Some its -> alternating tmin its (rts_of rec u) = true) ->
+  assoc (transform_SIS tmin inf rec) u = Some h ->
+  good_histb [stS; stI] sis_moves tmin h = true.
+Proof. exact transform_SIS_good. Qed.
+
 (* ---------------- non-vacuity ---------------- *)
 (* three nodes, SIR: 0 is infected at 1/2 and recovers at 2; 1 starts infected and
    recovers at 1/2 (a shared time); 2 never changes *)
@@ -115,7 +134,8 @@ Example C10_ex_transform :
   transform_SIR 0 [(0%N, 0); (1%N, 1 # 2)] [(0%N, 1)] = [(0%N, [(0, stI); (1, stR)]); (1%N, [(0, stS); (1 # 2, stI)])] /\
   sir_history 0 (Some 0) (Some 0) = Some [(0, stR)] /\
   transform_SIS 0 [(0%N, [0; 2 # 1]); (1%N, [1 # 2])] [(0%N, [1])] =
-    [(0%N, [(0, stI); (1, stS); (2 # 1, stI)]); (1%N, [(0, stS); (1 # 2, stI)])].
+    [(0%N, [(0, stI); (1, stS); (2 # 1, stI)]); (1%N, [(0, stS); (1 # 2, stI)])] /\
+  alternating 0 [0; 2 # 1] [1] = true /\ alternating 0 [1 # 2] [] = true.
 Proof. vm_compute. repeat split. Qed.
 
 Print Assumptions C10_summary_spec.
@@ -128,6 +148,8 @@ Print Assumptions C10_log_lemma.
 Print Assumptions C10_checker_sound.
 Print Assumptions C10_transform_SIR_spec.
 Print Assumptions C10_transform_SIR_histories_legal.
+Print Assumptions C10_transform_SIS_spec.
+Print Assumptions C10_transform_SIS_histories_legal.
 Print Assumptions C10_ex_transform.
 Print Assumptions C10_ex_hypotheses.
 Print Assumptions C10_ex_summary.
